@@ -109,13 +109,13 @@ _G = ["execAll", "execAsyncAll"]
 _A = ["execCall", "execAsyncCall"]
 _E = ["eventCall", "smSend"]
 SRC_TIE = {
-    "C07": ["eventCall", "reservedNames", "injectedNames", "bindExpected", "callableMethod", "engBase"],
+    "C07": ["eventCall", "reservedNames", "injectedNames", "bindExpected", "callableMethod", "engBase", "takeCallback"],
     "C16": ["engBase", "factory"] + ["surface"],
     "C13": _E + ["allowedEvents", "decl"] + ["surface"],
     "C15": ["decl", "factory"] + ["surface"],
     "C18": ["diagram"] + ["surface"],
     "C10": ["store", "smInit"] + ["surface"],
-    "C12": ["smInit", "registerCallbacks", "addListener", "registry", "specs"],
+    "C12": ["smInit", "registerCallbacks", "addListener", "registry", "specs", "takeCallback"],
     "C17": ["getState", "setState", "registerCallbacks", "addListener"] + ["surface"],
     "C09": ["visitConnected", "classCheck", "metaInit", "transitionInit", "decl"],
     "C01": ["triggerSync", "triggerAsync"] + _W + _G + ["decl"] + ["surface"],
@@ -124,7 +124,7 @@ SRC_TIE = {
     "C04": ["activateSync", "activateAsync", "processSync", "processAsync"] + _A,
     "C06": ["processSync", "processAsync", "engBase"],
     "C05": ["activateSync", "activateAsync", "triggerSync", "triggerAsync", "processSync", "processAsync"] + _W + _G + _A,
-    "C08": _W + _G + ["parser", "specs"],
+    "C08": _W + _G + ["parser", "specs", "takeCallback"],
     "C11": ["triggerSync", "triggerAsync", "engineStart", "store", "smInit", "engBase"],
     "C14": ["activateSync", "activateAsync", "triggerSync", "triggerAsync", "processSync", "processAsync"] + _W + _A
            + ["registerCallbacks", "addListener", "specs"],
@@ -132,11 +132,11 @@ SRC_TIE = {
 TIE_MOD = "SMV.Src.Tie"
 TIE_MODS = ["SMV.Src.Tie", "SMV.Src.TieExpr"]
 # further tie modules, built and audited only for the properties whose index names their theorems
-TIE_EXTRA = {"C07": ["SMV.Src.TieBind", "SMV.Src.TieEng"], "C03": ["SMV.Src.TieEng"], "C06": ["SMV.Src.TieEng"],
+TIE_EXTRA = {"C07": ["SMV.Src.TieBind", "SMV.Src.TieEng", "SMV.Src.TieTake"], "C03": ["SMV.Src.TieEng"], "C06": ["SMV.Src.TieEng"],
              "C16": ["SMV.Src.TieEng", "SMV.Src.TieFactory", "SMV.Src.TieSurface"], "C09": ["SMV.Src.TieCheck", "SMV.Src.TieDecl"], "C01": ["SMV.Src.TieDecl", "SMV.Src.TieSurface"],
              "C15": ["SMV.Src.TieDecl", "SMV.Src.TieFactory", "SMV.Src.TieSurface"], "C18": ["SMV.Src.TieDiagram", "SMV.Src.TieSurface"], "C10": ["SMV.Src.TieStore", "SMV.Src.TieSurface"],
-             "C11": ["SMV.Src.TieStore", "SMV.Src.TieEng"], "C12": ["SMV.Src.TieStore", "SMV.Src.TieReg", "SMV.Src.TieSpec"], "C02": ["SMV.Src.TieReg", "SMV.Src.TieStore", "SMV.Src.TieDecl", "SMV.Src.TieSpec"],
-             "C14": ["SMV.Src.TieStore", "SMV.Src.TieSpec"], "C08": ["SMV.Src.TieSpec"], "C13": ["SMV.Src.TieStore", "SMV.Src.TieDecl", "SMV.Src.TieSurface"],
+             "C11": ["SMV.Src.TieStore", "SMV.Src.TieEng"], "C12": ["SMV.Src.TieStore", "SMV.Src.TieReg", "SMV.Src.TieSpec", "SMV.Src.TieTake"], "C02": ["SMV.Src.TieReg", "SMV.Src.TieStore", "SMV.Src.TieDecl", "SMV.Src.TieSpec"],
+             "C14": ["SMV.Src.TieStore", "SMV.Src.TieSpec"], "C08": ["SMV.Src.TieSpec", "SMV.Src.TieTake"], "C13": ["SMV.Src.TieStore", "SMV.Src.TieDecl", "SMV.Src.TieSurface"],
              "C17": ["SMV.Src.TieStore", "SMV.Src.TieSurface"]}
 
 
